@@ -21,7 +21,7 @@ FAMILY = {
     "C08": {"results_read_when_idle", "one_stored_chain_per_started_epoch",
             "tracked_keys_respect_included_excluded", "stored_chain_is_thinned_per_iteration_states",
             "stored_chain_empty_iff_nothing_kept", "transition_infos_for_every_transition",
-            "kernel_states_for_every_transition", "posterior_accessor_returns_exactly_posterior_epochs", "stored_results_unchanged_by_reading_and_summarising",
+            "kernel_states_for_every_transition", "stored_kernel_states_are_those_after_the_transition", "posterior_accessor_returns_exactly_posterior_epochs", "stored_results_unchanged_by_reading_and_summarising",
             "generated_quantities_once_per_stored_iteration_from_post_transition_state"},
     "C09": {"starts_from_state_left_by_predecessor", "blocks_only_written_by_their_own_kernel",
             "probe_wrote_expected_tag"},
@@ -77,6 +77,9 @@ def handwritten(tier_quick: bool):
         # the builder has already built (and run) another engine: the second engine starts from the configured schedule
         dict(ops=[("next",), ("append", C(4, 4, 2)), ("all",)], init_cfgs=[I, C(1, 4), C(3, 2), C(4, 4, 2)], K=2,
              needs_hist=(1,), chains=2, via_builder=True, prebuild=True),
+        # a thinned warm-up epoch whose duration is not a multiple of the thinning, followed by an epoch with the same thinning
+        dict(ops=[("all",)], init_cfgs=[I, C(3, 5, 2), C(4, 4, 2), C(4, 6, 2)], K=2, needs_hist=(), chains=2, via_builder=True,
+             store_kernel_states=True),
         # first real epoch is posterior; J = 1; thinning that never keeps anything in a chunk
         dict(ops=[("append", I), ("append", C(4, 3, 3)), ("next",), ("next",), ("append", C(4, 2, 2)),
                   ("next",), ("append", C(4, 1)), ("all",)],
